@@ -32,7 +32,24 @@ inline MatX skew3(ld x, ld y, ld z)
   return S;
 }
 
-enum class Kind { SO2, SO3, SE2, SE3, C1, GAL, SEK, TN };
+// independent matrix exponential oracle: scaling and squaring with a 40-term Taylor series in long double
+inline MatX expm(const MatX & A)
+{
+  ld nrm = A.cwiseAbs().rowwise().sum().maxCoeff();
+  int s  = 0;
+  while (nrm > 0.25L) {
+    nrm /= 2;
+    ++s;
+  }
+  MatX As = A / std::pow(2.0L, s);
+  MatX T  = MatX::Identity(A.rows(), A.cols()), term = T;
+  for (int k = 1; k <= 40; ++k) {
+    term = term * As / static_cast<ld>(k);
+    T += term;
+  }
+  for (int i = 0; i < s; ++i) T = T * T;
+  return T;
+}
 
 template<typename G>
 struct Doc;
@@ -55,6 +72,12 @@ struct Doc<smooth::SO2<S>>
     M << 0, -a(0), a(0), 0;
     return M;
   }
+  static VecX vee(const MatX & M)
+  {
+    VecX a(1);
+    a << M(1, 0);
+    return a;
+  }
 };
 template<typename S>
 struct Doc<smooth::SO3<S>>
@@ -64,6 +87,12 @@ struct Doc<smooth::SO3<S>>
   static constexpr bool homog = false;
   static MatX mat(const VecX & c) { return rotq(c(0), c(1), c(2), c(3)); }
   static MatX hat(const VecX & a) { return skew3(a(0), a(1), a(2)); }
+  static VecX vee(const MatX & M)
+  {
+    VecX a(3);
+    a << M(2, 1), M(0, 2), M(1, 0);
+    return a;
+  }
 };
 template<typename S>
 struct Doc<smooth::SE2<S>>
@@ -82,6 +111,12 @@ struct Doc<smooth::SE2<S>>
     MatX M(3, 3);
     M << 0, -a(2), a(0), a(2), 0, a(1), 0, 0, 0;
     return M;
+  }
+  static VecX vee(const MatX & M)
+  {
+    VecX a(3);
+    a << M(0, 2), M(1, 2), M(1, 0);
+    return a;
   }
 };
 template<typename S>
@@ -104,6 +139,12 @@ struct Doc<smooth::SE3<S>>
     M.block(0, 3, 3, 1) = a.segment(0, 3);
     return M;
   }
+  static VecX vee(const MatX & M)
+  {
+    VecX a(6);
+    a << M(0, 3), M(1, 3), M(2, 3), M(2, 1), M(0, 2), M(1, 0);
+    return a;
+  }
 };
 template<typename S>
 struct Doc<smooth::C1<S>>
@@ -122,6 +163,12 @@ struct Doc<smooth::C1<S>>
     MatX M(2, 2);
     M << a(0), -a(1), a(1), a(0);
     return M;
+  }
+  static VecX vee(const MatX & M)
+  {
+    VecX a(2);
+    a << M(0, 0), M(1, 0);
+    return a;
   }
 };
 template<typename S>
@@ -148,6 +195,12 @@ struct Doc<smooth::Galilei<S>>
     M(3, 4)         = a(6);
     return M;
   }
+  static VecX vee(const MatX & M)
+  {
+    VecX a(10);
+    a << M(0, 3), M(1, 3), M(2, 3), M(0, 4), M(1, 4), M(2, 4), M(3, 4), M(2, 1), M(0, 2), M(1, 0);
+    return a;
+  }
 };
 template<typename S, int K>
 struct Doc<smooth::SE_K_3<S, K>>
@@ -168,6 +221,13 @@ struct Doc<smooth::SE_K_3<S, K>>
     M.block(0, 0, 3, 3) = skew3(a(3 * K), a(3 * K + 1), a(3 * K + 2));
     for (int i = 0; i < K; ++i) M.block(0, 3 + i, 3, 1) = a.segment(3 * i, 3);
     return M;
+  }
+  static VecX vee(const MatX & M)
+  {
+    VecX a(3 * K + 3);
+    for (int i = 0; i < K; ++i) a.segment(3 * i, 3) = M.block(0, 3 + i, 3, 1);
+    a.segment(3 * K, 3) << M(2, 1), M(0, 2), M(1, 0);
+    return a;
   }
 };
 
